@@ -30,6 +30,11 @@ fn prog_for(prop: &str, tier: u8, seed: u64, idx: usize) -> Prog {
     if idx < ncl {
         return cl[(idx * 7) % cl.len()].1.clone();
     }
+    if prop == "C14" && idx % 10 == 4 {
+        // one location receives more stores than loom's store history holds: the candidate lists of the loads are built
+        // from a ring that has wrapped
+        return crate::fam_lit::long_history_prog(seed ^ 0xC14, idx);
+    }
     let mut rng = Rng::new(seed, idx as u64 ^ fnv(prop));
     let a = Alpha { nlocs: 2, rmw: true, cas: true, fadd: true, fences: true, sc_only: false };
     let t = 2 + rng.below(2 + (tier as usize));
